@@ -72,21 +72,7 @@ def detector_vote(m, r):
     if vote_if is None:
         r.error("get_source_info_str: the test applying _FREE_FORMAT_START was not found (anchor vanished)")
         return None
-    loop = None
-    for n in A.body_nodes(f.node):
-        if isinstance(n, ast.While) and any(x is vote_if for x in ast.walk(n)):
-            loop = n
-    if loop is None:
-        r.error("get_source_info_str: the voting loop was not found")
-        return None
-    flag = None
-    for n in ast.walk(loop):
-        if isinstance(n, ast.Assign) and isinstance(n.value, ast.Constant) and n.value.value is True:
-            flag = A.text(n.targets[0])
-    if flag is None:
-        r.error("get_source_info_str: the free-form flag set by the voting loop was not found")
-        return None
-
+    # (the detector is interpreted as a whole below: the shape of its loop does not matter)
     ev.g["FortranFormat"] = lambda is_free, is_strict, *a, **k: (is_free, is_strict)
 
     def vote(text):
